@@ -332,6 +332,9 @@ func (cs *busCase) handle(rid int, lit int, ctx context.Context, e any, ty int) 
 		}
 	}
 	cs.emit("enter %d %d %d %d %s %s", cs.cur.depth, rid, ty, v, ctxs, b01(async))
+	if ctx != nil && p.cancel != nil && ctx.Done() == nil {
+		cs.emit("!ctx-not-cancellable the publish context can be cancelled, the context handed to the handler cannot")
+	}
 	cs.calls++
 	defer func() {
 		cs.emit("exit %d %d", p.depth+1, rid)
@@ -577,6 +580,10 @@ func (cs *busCase) do(a action) {
 	case "cancel":
 		if cs.cur.info != nil && cs.cur.info.cancel != nil {
 			cs.cur.info.cancel()
+			// a context-aware handler's context carries the cancellation of the publish context it was called for
+			if cs.cur.ctxAware && cs.cur.ctx != nil && cs.cur.ctx.Err() == nil {
+				cs.emit("!ctx-cancellation-not-propagated the publish context was cancelled, the context handed to the handler is still live")
+			}
 		}
 	case "cancelid":
 		if c, ok := cs.cancels[arg(0)]; ok {
